@@ -834,9 +834,12 @@ pub fn gen_race(rng: &mut Rng) -> Program {
 
 pub fn gen_arc(rng: &mut Rng, leaky: bool) -> Program {
     let mut vs = ValueSrc::new();
-    let spawned = rng.range(1, 3);
+    // most programs are tiny (one Arc, one op per thread): every handle op is a scheduling point,
+    // and the dependence rules between clone / drop / inspect show with three actors and one op each
+    let tiny = rng.chance(3, 5);
+    let spawned = if tiny { 2 } else { rng.range(1, 3) };
     let nt = spawned + 1;
-    let n_arcs = rng.range(1, 2);
+    let n_arcs = if tiny { 1 } else { rng.range(1, 2) };
     let with_atomic = rng.chance(1, 2);
     let with_track = leaky && rng.chance(1, 2);
     let with_alloc = leaky && rng.chance(1, 3);
@@ -851,7 +854,7 @@ pub fn gen_arc(rng: &mut Rng, leaky: bool) -> Program {
     for _ in 0..n_arcs {
         let mut owners = Vec::new();
         for t in 1..nt {
-            if rng.chance(2, 3) {
+            if tiny || rng.chance(2, 3) {
                 owners.push(t as u8);
             }
         }
@@ -859,8 +862,9 @@ pub fn gen_arc(rng: &mut Rng, leaky: bool) -> Program {
     }
     p.threads = vec![Vec::new(); nt];
     let mut bodies: Vec<Vec<Op>> = vec![Vec::new(); nt];
+    let mut returned_max = vec![0usize; n_arcs];
     for t in 0..nt {
-        let n = rng.range(1, 4);
+        let n = if tiny { 1 } else { rng.range(1, 4) };
         let mut extra_handles = vec![0usize; n_arcs];
         for _ in 0..n {
             let r = rng.below(n_arcs) as u8;
@@ -919,9 +923,15 @@ pub fn gen_arc(rng: &mut Rng, leaky: bool) -> Program {
             let r = rng.below(n_arcs) as u8;
             bodies[t].push(Op::If { pc, eq: 0, then: Box::new(Op::ArcDrop { r }) });
         }
-        // release everything this thread may still hold (surplus drops are no-ops)
+        // release everything this thread may still hold (surplus drops are no-ops), or hand the
+        // handles back to main (which collects and drops them after the joins)
         let skip_release = leaky && rng.chance(1, 4);
-        if !skip_release {
+        if t != 0 && !skip_release && rng.chance(1, 2) {
+            for r in 0..n_arcs {
+                bodies[t].push(Op::ArcReturn { r: r as u8 });
+                returned_max[r] += 1 + extra_handles[r];
+            }
+        } else if !skip_release {
             for r in 0..n_arcs {
                 let owned = t == 0 || p.arcs[r].contains(&(t as u8));
                 let n_drop = owned as usize + extra_handles[r];
@@ -943,7 +953,7 @@ pub fn gen_arc(rng: &mut Rng, leaky: bool) -> Program {
     }
     // main's own body runs between spawn and join or after the joins
     let main_body = std::mem::take(&mut bodies[0]);
-    if rng.chance(1, 2) {
+    if tiny || rng.chance(1, 2) {
         p.threads[0].extend(main_body);
         for t in 1..nt {
             p.threads[0].push(Op::Join { t: t as u8 });
@@ -962,6 +972,15 @@ pub fn gen_arc(rng: &mut Rng, leaky: bool) -> Program {
     }
     if with_chan && rng.chance(1, 2) {
         p.threads[0].push(Op::TryRecv { c: 0 });
+    }
+    // main picks up what the joined threads handed back and drops it
+    for r in 0..n_arcs {
+        if returned_max[r] > 0 {
+            p.threads[0].push(Op::ArcCollect { r: r as u8 });
+            for _ in 0..returned_max[r] {
+                p.threads[0].push(Op::ArcDrop { r: r as u8 });
+            }
+        }
     }
     for t in 1..nt {
         p.threads[t] = std::mem::take(&mut bodies[t]);
